@@ -614,6 +614,11 @@ func (s *Server) VerifySideChainHeader(cp *params.CaravelParams, seedHeader *typ
 		return consensus.ErrUnknownAncestor
 	}
 
+	// the same stand-alone checks verifyHeader does before the cascading ones
+	if err := s.verifySignature(header); err != nil {
+		return err
+	}
+
 	//verifyConsensusField
 	return s.verifyConsensusFieldMain(cp, seedHeader, vldReader, certHeader, certVldReader, block.Header())
 }
